@@ -756,7 +756,13 @@ func (p *Parser) parseGenDecl(
 		lparen = p.pos
 		p.next()
 		for iota := 0; p.token != token.RParen && p.token != token.EOF; iota++ { //nolint:predeclared
+			prevPos := p.pos
 			list = append(list, fn(keyword, true, iota))
+			if p.pos == prevPos {
+				// spec parser reported an error and did not consume the
+				// token, skip it to make progress.
+				p.next()
+			}
 		}
 		rparen = p.expect(token.RParen)
 		p.expectSemi()
